@@ -1,0 +1,20 @@
+// SPDX-FileCopyrightText: 2026 The Pion community <https://pion.ly>
+// SPDX-License-Identifier: MIT
+
+//go:build verif
+
+package pacing
+
+// VerifSizes returns the number of packets waiting in the hand-over channel; the pacing
+// queue proper is a local of the loop goroutine (verification harness only).
+func (i *Interceptor) VerifSizes() map[string]int {
+	return map[string]int{"chan": len(i.queue)}
+}
+
+// VerifSizes returns the number of interceptors the factory remembers (verification harness only).
+func (f *InterceptorFactory) VerifSizes() map[string]int {
+	f.lock.Lock()
+	defer f.lock.Unlock()
+
+	return map[string]int{"interceptors": len(f.interceptors)}
+}
